@@ -292,21 +292,48 @@ func (c *Check) requireWhen(rule, inst string, fn *ssa.Function, holds func([]At
 			nEdges++
 			check(fn.Blocks[0])
 		} else {
-			for _, b := range fn.Blocks {
-				ifi, isIf := b.Instrs[len(b.Instrs)-1].(*ssa.If)
-				if !isIf {
-					continue
+			scan := []*ssa.Function{fn}
+			for _, hfn := range helpersOf(fn) {
+				if hfn.Parent() == nil {
+					scan = append(scan, hfn)
 				}
-				before := factsAt(b)
-				if holds(before) {
-					continue
+			}
+			for _, sf := range scan {
+				sf := sf
+				if sf != fn {
+					// the condition may be established inside a new helper: the obligation is then judged inside it
+					rets = successReturns(sf)
+					inner := sf
+					check = func(start *ssa.BasicBlock) {
+						first := start.Instrs[0]
+						if pred(first) || transparentPass(first, pred, 0) {
+							return
+						}
+						for _, r := range rets {
+							if first == ssa.Instruction(r) || ((start == r.Block() || blockReaches(start, r.Block())) && !mustPassFrom(inner, first, r, pred)) {
+								ok = false
+								pos = r.Pos()
+								why = detail + " (the return at " + c.L.Pos(r.Pos()) + " is reachable on that path without it)"
+							}
+						}
+					}
 				}
-				for idx := 0; idx < 2; idx++ {
-					a := condAtom(ifi.Cond, idx == 0)
-					a.If = ifi
-					if holds(append(append([]Atom{}, before...), a)) {
-						nEdges++
-						check(b.Succs[idx])
+				for _, b := range sf.Blocks {
+					ifi, isIf := b.Instrs[len(b.Instrs)-1].(*ssa.If)
+					if !isIf {
+						continue
+					}
+					before := factsAt(b)
+					if holds(before) {
+						continue
+					}
+					for idx := 0; idx < 2; idx++ {
+						a := condAtom(ifi.Cond, idx == 0)
+						a.If = ifi
+						if holds(append(append([]Atom{}, before...), a)) {
+							nEdges++
+							check(b.Succs[idx])
+						}
 					}
 				}
 			}
@@ -638,9 +665,18 @@ func (c *Check) handlerEffects(kinds map[string]*recKind) {
 		c.requireOnPaths("R2", "group cascade: bids of every order enumerated", oc, successReturns(oc), func(x ssa.CallInstruction) bool { return callIs(x, "WithBidsForOrder", "", "types.OrderID") }, "")
 		c.requireOnPaths("R2", "group cascade: every bid -> closed", bc, successReturns(bc), func(x ssa.CallInstruction) bool { return callIs(x, "OnBidClosed", "", "types.Bid") }, "bid stays live under a closed/paused group")
 		// lease: if GetLease found -> OnLeaseClosed + PaymentClose
-		lf := ifOn(bc, "GetLease", 1)
-		c.requireAfterEdge("R2", "group cascade: existing lease -> closed", bc, lf, 0, func(x ssa.CallInstruction) bool { return callIs(x, "OnLeaseClosed", "", "types.Lease") }, "lease stays active under a closed/paused group")
-		c.requireAfterEdge("R2", "group cascade: existing lease's payment closed", bc, lf, 0, func(x ssa.CallInstruction) bool { return callIs(x, "PaymentClose", "EscrowKeeper") }, "payment keeps streaming for a closed lease")
+		leaseFound := func(f []Atom) bool {
+			for _, a := range f {
+				if a.Op == "true" {
+					if cv, k := callOf(a.X); cv != nil && k == 1 && calleeMethod(cv) == "GetLease" {
+						return true
+					}
+				}
+			}
+			return false
+		}
+		c.requireWhen("R2", "group cascade: existing lease -> closed", bc, leaseFound, func(x ssa.CallInstruction) bool { return callIs(x, "OnLeaseClosed", "", "types.Lease") }, "lease stays active under a closed/paused group")
+		c.requireWhen("R2", "group cascade: existing lease's payment closed", bc, leaseFound, func(x ssa.CallInstruction) bool { return callIs(x, "PaymentClose", "EscrowKeeper") }, "payment keeps streaming for a closed lease")
 	}
 	// -- hooks
 	{
@@ -1020,7 +1056,7 @@ func (c *Check) cascadeCallbacks() {
 						ok = false
 						continue
 					}
-					if k, isK := r.Results[0].(*ssa.Const); !isK || k.Value == nil || k.Value.ExactString() != "false" {
+					if !alwaysFalse(r.Results[0], 0) {
 						ok = false
 					}
 				}
@@ -1047,6 +1083,25 @@ func blockReachesAvoiding(from, to, avoid *ssa.BasicBlock) bool {
 			return true
 		}
 		stack = append(stack, x.Succs...)
+	}
+	return false
+}
+
+// alwaysFalse: v is the constant false, or the result of a new helper (see transparent.go) that only returns false.
+func alwaysFalse(v ssa.Value, depth int) bool {
+	if k, isK := v.(*ssa.Const); isK {
+		return k.Value != nil && k.Value.ExactString() == "false"
+	}
+	if cv, isC := v.(*ssa.Call); isC && depth < 3 {
+		if g := newHelperCallee(cv); g != nil {
+			rets := helperReturns(g, 0)
+			for _, rv := range rets {
+				if !alwaysFalse(rv, depth+1) {
+					return false
+				}
+			}
+			return len(rets) > 0
+		}
 	}
 	return false
 }
